@@ -941,6 +941,12 @@ pub fn conformance(thorough: bool, threads: usize, name: &'static str) -> JobRes
                         let mut act_resp: Vec<String> = actual.iter().filter(|l| l.starts_with("resp ")).cloned().collect();
                         exp_resp.sort();
                         act_resp.sort();
+                        // requests the plugin issues concurrently reach the real node in either order: compare
+                        // the requests as a multiset (labels are numbered per method and hash, so a request that is
+                        // issued earlier or later than in-process still shows up as a different label)
+                        let (mut exp_req, mut act_req) = (exp_req, act_req);
+                        exp_req.sort();
+                        act_req.sort();
                         if exp_req != act_req || exp_resp != act_resp {
                             let i = exp_req.iter().zip(act_req.iter()).position(|(a, b)| a != b);
                             found.lock().unwrap().push(FoundAny {
